@@ -12,6 +12,7 @@ import Driver.Mi
 import Driver.Tr
 import Driver.Tr19
 import Driver.E2e
+import Driver.Cand
 open Driver
 
 def dispatch (line : String) : Verdict :=
@@ -19,12 +20,14 @@ def dispatch (line : String) : Verdict :=
   let (l, r) := splitBar toks
   match l with
   | "C02" :: "hist" :: args => c02hist args r
+  | "C02" :: "cand" :: args => c02cand args r
   | "C02" :: args => c02 args r
   | "C03" :: args => c03 args r
   | "C04" :: args => c04 args r
   | "C05" :: args => c05 args r
   | "C17" :: args => c17 args r
   | "C18" :: args => c18 args r
+  | "C19" :: "cand" :: args => c02cand args r
   | "C19" :: args => c19 args r
   | "C06" :: "hand" :: args => handVerdict "C06" ("hand" :: args) r
   | "C06" :: args => c06 args r
